@@ -82,16 +82,26 @@ Fixpoint explained (ms ss xs : list obs) : bool :=
   | m :: ms', s :: ss', x :: xs' => (obs_eqb m x || obs_eqb s x) && explained ms' ss' xs'
   | _, _, _ => false
   end.
+(* exactness self-check: under the lookup times of M's run (pols_run) the specification runL must give exactly
+   M's outcomes wherever it is binding (theorem history_exact) *)
+Fixpoint exact_bad (ls ms : list obs) : nat :=
+  match ls, ms with
+  | [], [] => 0
+  | l :: ls', m :: ms' => (if binding (fst l) && negb (obs_eqb l m) then 1 else 0) + exact_bad ls' ms'
+  | _, _ => 1
+  end.
 (* 0 ok.  1: some observed outcome is neither M's nor S's, and the observed outcomes do not violate S where S
    constrains them (or the case is malformed).  2: some observed outcome is neither M's nor S's and an
    observed outcome differs from S where S is binding.  3: self-check: the observed outcomes are explained but
-   M itself differs from S where S is binding (the refinement theorem would be false). *)
+   M itself differs from S where S is binding, or from runL under its own lookup times (a refinement theorem
+   would be false). *)
 Definition check_case (c : case) : N :=
   let ops := fst c in
   let m := runM FUEL minit ops in
   let s := runS FUEL sinit ops in
+  let l := runL FUEL sinit ops (pols_run FUEL minit ops) in
   if negb (wf_case c) then 1%N
-  else if explained m s (snd c) then (if Nat.eqb (bad_count s m) 0 then 0%N else 3%N)
+  else if explained m s (snd c) then (if Nat.eqb (bad_count s m) 0 && Nat.eqb (exact_bad l m) 0 then 0%N else 3%N)
   else if Nat.eqb (bad_count s (snd c)) 0 then 1%N else 2%N.
 Fixpoint check_all_from (i : N) (cs : list case) : list (N * N) :=
   match cs with
@@ -112,3 +122,13 @@ Fixpoint dev_count (ss xs : list obs) : nat :=
   end.
 Definition deviation_count (cs : list case) : N :=
   N.of_nat (fold_left (fun a c => a + dev_count (runS FUEL sinit (fst c)) (snd c)) cs 0).
+
+(* outcomes for which the lookup time of an undefined operator mattered: runL under M's lookup times differs from
+   runS (lookup always before the arguments) *)
+Fixpoint diff_count (ss ls : list obs) : nat :=
+  match ss, ls with
+  | s :: ss', l :: ls' => (if obs_eqb s l then 0 else 1) + diff_count ss' ls'
+  | _, _ => 0
+  end.
+Definition late_count (cs : list case) : N :=
+  N.of_nat (fold_left (fun a c => a + diff_count (runS FUEL sinit (fst c)) (runL FUEL sinit (fst c) (pols_run FUEL minit (fst c)))) cs 0).
